@@ -29,6 +29,7 @@ class Actor(object):
         self.scheduled = False
         self.woken = False
         self.log = []                # transcript: (t, kind, data)
+        self.intr = False            # a handled signal is pending for an interruptible read
         if proc is not None:
             proc.actor = self
 
@@ -43,6 +44,12 @@ class Actor(object):
         """Wake from ('pause',)."""
         self.woken = True
         if self.waiting is not None and self.waiting[0] == 'pause':
+            self._schedule()
+
+    def interrupt(self):
+        """Called from a signal handler: an interruptible read returns None."""
+        self.intr = True
+        if self.waiting is not None and self.waiting[0] == 'read' and len(self.waiting) > 3:
             self._schedule()
 
     def _schedule(self):
@@ -130,6 +137,9 @@ class Actor(object):
             return res
         if kind == 'read':
             h, n = req[1], req[2]
+            if len(req) > 3 and self.intr:
+                self.intr = False
+                return (None, None)       # interrupted by a signal handler
             if not h.readable():
                 self.waiting = req
                 k.waiters.append(self._on_kick)
@@ -191,7 +201,7 @@ class Actor(object):
         kind = req[0]
         ready = True
         if kind == 'read':
-            ready = req[1].readable()
+            ready = req[1].readable() or (len(req) > 3 and self.intr)
         elif kind in ('write', 'write_some'):
             ready = req[1].write_room() > 0
         if ready:
